@@ -84,7 +84,7 @@ def accepts (f : First) (authOk : Bool) : Bool :=
 
 /-- `getSession`: the client identifier in force (an empty one is replaced) -/
 def effCid (c : Nat) (req : Connect) : Bytes :=
-  if req.clientId.isEmpty then "internalclient".toUTF8.toList ++ (toString c).toUTF8.toList else req.clientId
+  if req.clientId.isEmpty then Mqtt.Model.Broker.anonId c else req.clientId
 
 /-- `getSession`: the CleanSession flag in force (an empty identifier forces 1) -/
 def effClean (req : Connect) : Bool := if req.clientId.isEmpty then true else req.clean
